@@ -957,17 +957,19 @@ class CallMixin(ExprMixin):
         if not cm.havoc_all:
             self.alloc_boundary(st)
         res = NONEV
+        surely_fresh = any(e.strip() == "fresh(result)" for e in cm.post)
         if cm.returns is not None and cm.returns != NONE:
             if isinstance(cm.returns, str):
                 res = self.spec_eval(cm.returns, call_st, old=call_st)
+            elif surely_fresh and isinstance(cm.returns, Ref):
+                # the callee returns an object it has just created: allocated past everything that exists now (so it
+                # aliases nothing, not even objects other tasks created during a suspension), and inside our frame
+                res = V(cm.returns, self.alloc(st, cm.returns.cls))
             else:
                 res = self.fresh(cm.returns, "ret")
                 self.assume_valid(st, res)
         if any("fresh(result)" in e for e in cm.post):
             self.havoc_object(st, res)
-            if any(e.strip() == "fresh(result)" for e in cm.post) and isinstance(res.ty, Ref):
-                # an object created for us by the callee did not exist in our pre-state: writing it is inside our frame
-                st.flags["fresh"] = st.flags.get("fresh", []) + [res.t]
         post_st = st.copy()
         post_st.env = dict(call_st.env)
         post_st.env["result"] = res
